@@ -6,6 +6,6 @@ Grid(Ps,Ms,Ns,k) == {[P |-> p, Max |-> m, N |-> n, Faults |-> f, Abandon |-> a] 
                        p \in Ps, m \in Ms, n \in Ns, f \in SubsetsUpTo(1..4,k), a \in BOOLEAN}
 Legal(c) == c.Faults \subseteq 1..c.N /\ ~(c.P = 1 /\ c.Max = 0)      \* P=1,Max=0 is the in-process path (no concurrency)
 QuickConfigs    == {c \in Grid(1..2, 0..2, 0..4, 1) : Legal(c) /\ (c.Abandon => c.Faults = {})}
-ThoroughConfigs == {c \in Grid(1..3, 0..3, 0..4, 2) : Legal(c)}
+ThoroughConfigs == {c \in Grid(1..3, 0..2, 0..4, 2) : Legal(c) /\ (c.P = 3 => Cardinality(c.Faults) <= 1 /\ c.N <= 3)}
 mcMaxWorkers == 7
 =============================================================================
